@@ -177,36 +177,65 @@ func nearestStore(ld *ssa.UnOp, a *ssa.Alloc) ssa.Value {
 	if addrEscapes(a) {
 		return nil
 	}
-	b := ld.Block()
-	idx := indexIn(b, ld)
-	for hops := 0; hops < 64; hops++ {
+	// reaching definitions of the cell at the load: walk backwards over all
+	// predecessors; the load resolves iff exactly one store reaches it and no
+	// path reaches the function entry without a store (uninitialised / zero).
+	type pos struct {
+		b   *ssa.BasicBlock
+		idx int
+	}
+	var found ssa.Value
+	multiple := false
+	seen := map[*ssa.BasicBlock]bool{}
+	var walk func(b *ssa.BasicBlock, idx int)
+	walk = func(b *ssa.BasicBlock, idx int) {
+		if multiple {
+			return
+		}
 		for i := idx - 1; i >= 0; i-- {
 			switch x := b.Instrs[i].(type) {
 			case *ssa.Store:
 				if x.Addr == ssa.Value(a) {
-					return x.Val
+					if found == nil {
+						found = x.Val
+					} else if found != x.Val {
+						multiple = true
+					}
+					return
 				}
 			case ssa.CallInstruction:
 				if _, isDefer := x.(*ssa.Defer); isDefer {
 					continue
 				}
-				// a direct call of a closure capturing the cell may write it
 				if mc, ok := x.Common().Value.(*ssa.MakeClosure); ok {
 					for _, bnd := range mc.Bindings {
 						if bnd == ssa.Value(a) {
-							return nil
+							multiple = true
+							return
 						}
 					}
 				}
 			}
 		}
-		if len(b.Preds) != 1 {
-			return nil
+		if len(b.Preds) == 0 {
+			// reached entry without a store: the zero value
+			multiple = true
+			return
 		}
-		b = b.Preds[0]
-		idx = len(b.Instrs)
+		for _, p := range b.Preds {
+			if seen[p] {
+				continue
+			}
+			seen[p] = true
+			walk(p, len(p.Instrs))
+		}
 	}
-	return nil
+	b := ld.Block()
+	walk(b, indexIn(b, ld))
+	if multiple {
+		return nil
+	}
+	return found
 }
 
 // onlyLoaded reports whether an address value is used only for loads (also
